@@ -102,7 +102,15 @@ func peFieldMutant(rng *rand.Rand, img []byte) ([]byte, string) {
 			binary.LittleEndian.PutUint16(m[off:], v)
 		}
 	}
-	switch rng.Intn(16) {
+	switch rng.Intn(17) {
+	case 16:
+		// no sections, headers of (almost) no size, and a certificate table that claims the whole file
+		put16(e+6, 0)
+		put32(opt+60, pick(rng, []uint32{0, 0x40, 8, uint32(opt)}))
+		va := pick(rng, []uint32{0, 8, 0x40})
+		put32(opt+ddoff+32, va)
+		put32(opt+ddoff+36, uint32(len(m))-va)
+		return m, "no-sections+tiny-headers+table-is-the-file"
 	case 14:
 		// a certificate table that ends right after its only entry, whose dwLength is not a multiple of 8
 		va := int(binary.LittleEndian.Uint32(m[opt+ddoff+32:]))
@@ -287,6 +295,22 @@ func runC13(c *Ctx) {
 			img = images[rng.Intn(6)]
 		}
 		m, class := peFieldMutant(rng, img)
+		if i%5 == 4 {
+			// several fields at once: each alone is refused, together they may slip past a check
+			for k := 1 + rng.Intn(2); k > 0; k-- {
+				var c2 string
+				m, c2 = func(in []byte) (out []byte, cl string) {
+					// an earlier edit may have moved the headers out of the file: leave such an image as it is
+					defer func() {
+						if recover() != nil {
+							out, cl = in, "none"
+						}
+					}()
+					return peFieldMutant(rng, in)
+				}(m)
+				class += "+" + c2
+			}
+		}
 		eval("authenticode.Parse+all", m, class)
 	}
 	for _, img := range images {
